@@ -13,6 +13,7 @@ import (
 	"crypto/sha256"
 	"encoding/hex"
 	"fmt"
+	"regexp"
 	"sort"
 	"strings"
 	"sync"
@@ -455,6 +456,23 @@ func vc11GenList(t *rapid.T, label string, names []string, favoured ...string) (
 		}
 	}
 
+	// A long comment line, often in front of listed names.  The lengths are
+	// around 255 and below the scanner's 64 KiB token limit, terminator
+	// included.
+	if rapid.IntRange(0, 3).Draw(t, label+".long") == 0 {
+		n := rapid.SampledFrom([]int{200, 254, 255, 255, 256, 256, 1000, 4096, 65534}).Draw(t, label+".longLen")
+		at := rapid.SampledFrom([]int{0, 0, rapid.IntRange(0, len(lines)).Draw(t, label+".longAt")}).Draw(t, label+".longAt0")
+		lines = append(lines[:at], append([]string{"#" + strings.Repeat("-", n-1)}, lines[at:]...)...)
+		forms[fmt.Sprintf("long-line-%d", n)] = true
+		if n >= 255 {
+			for _, after := range lines[at+1:] {
+				if after != "" && after[0] != '#' {
+					forms["list-has-line-of-255-or-more"] = true
+				}
+			}
+		}
+	}
+
 	crlf := rapid.SampledFrom([]string{"lf", "lf", "crlf", "mixed"}).Draw(t, label+".eol")
 	noFinal := rapid.Bool().Draw(t, label+".noFinalEOL")
 	b := &strings.Builder{}
@@ -481,12 +499,38 @@ func vc11GenList(t *rapid.T, label string, names []string, favoured ...string) (
 	}
 
 	for f := range forms {
-		l.forms = append(l.forms, "text-"+f)
+		if strings.HasPrefix(f, "list-") {
+			l.forms = append(l.forms, f)
+		} else {
+			l.forms = append(l.forms, "text-"+f)
+		}
 	}
 
 	sort.Strings(l.forms)
 
 	return l
+}
+
+// vc11ShowText quotes a list text for a history, abbreviating the padding of
+// long comment lines.
+func vc11ShowText(text string) string {
+	return vc11DashRe.ReplaceAllStringFunc(fmt.Sprintf("%q", text), func(m string) string {
+		return fmt.Sprintf("-{%d}", len(m))
+	})
+}
+
+var vc11DashRe = regexp.MustCompile(`-{40,}`)
+
+// vc11HasLongLine reports whether the list text has a line of 255 bytes or
+// more, which an implementation may refuse loudly.
+func vc11HasLongLine(text string) bool {
+	for _, line := range strings.Split(text, "\n") {
+		if len(line) >= 254 {
+			return true
+		}
+	}
+
+	return false
 }
 
 // vc11Names returns the strings of ns.
